@@ -311,30 +311,31 @@ type vC17Sim struct {
 	sigOf                     func(k int32) string // optional refinement of provideSig per key
 	noteOf                    func(k int32) string // optional annotation of a key in witnesses
 
-	mu         sync.Mutex
-	epochs     []vC17Epoch
-	reported   []bool
-	repAt      [][]time.Duration // virtual times at which the router reported each peer (ascending)
-	sends      map[int32][]vC17Send
-	addrs      []ma.Multiaddr
-	addrBytes  [][]byte
-	targets    map[[2]int32][]int32
-	model      map[int32]*vC17KeyModel
-	blocked    [][2]time.Duration // outages: obligations suspended
-	shortOut   [][2]time.Duration // outages shorter than the smallest offline delay: windows across them get a later deadline
-	deferred   []vC17Deferred     // keys handed over during an outage and still queued when it ends
-	merges     []vC17Merge        // scheduled prefixes replaced by a shorter one during a StartProviding call
-	oneRegion  time.Duration      // > 0: the StartProviding call at this time found a schedule of one region and added more
-	onePrefix  string             // that region's prefix
-	stuckAt    time.Duration      // > 0: first time the cursor was seen re-armed on onePrefix at its own slot with more regions scheduled
-	nGCP       int
-	nSend      int
-	nSendFail  int
-	badPay     []string
-	unrep      []string
-	apiErr     []string
-	capHits    []vC17CapHit
-	earlyStops []vC17Explore // explorations left by the no-fresh-peers break with gaps still unexplored
+	mu           sync.Mutex
+	epochs       []vC17Epoch
+	reported     []bool
+	repAt        [][]time.Duration // virtual times at which the router reported each peer (ascending)
+	sends        map[int32][]vC17Send
+	addrs        []ma.Multiaddr
+	addrBytes    [][]byte
+	targets      map[[2]int32][]int32
+	model        map[int32]*vC17KeyModel
+	blocked      [][2]time.Duration // outages: obligations suspended
+	shortOut     [][2]time.Duration // outages shorter than the smallest offline delay: windows across them get a later deadline
+	deferred     []vC17Deferred     // keys handed over during an outage and still queued when it ends
+	merges       []vC17Merge        // scheduled prefixes replaced by a shorter one during a StartProviding call
+	oneRegion    time.Duration      // > 0: the StartProviding call at this time found a schedule of one region and added more
+	onePrefix    string             // that region's prefix
+	stuckAt      time.Duration      // > 0: first time the cursor was seen re-armed on onePrefix at its own slot with more regions scheduled
+	nGCP         int
+	nSend        int
+	nSendFail    int
+	badPay       []string
+	unrep        []string
+	apiErr       []string
+	capHits      []vC17CapHit
+	earlyStops   []vC17Explore     // explorations left by the no-fresh-peers break with gaps still unexplored
+	reprovStarts []vC17ReprovStart // "reprovide starting for prefix" lines of the provider, in order
 
 	outage       atomic.Bool
 	closing      atomic.Bool
@@ -1285,6 +1286,27 @@ func (s *vC17Sim) evaluate(end time.Duration, windows bool) vC17Verdict {
 								break
 							}
 						}
+						if during == "" {
+							// finding #32: the key was last reprovided as part of a coarser region, the schedule was split into
+							// finer regions by that very reprovide, and the finer region's own slot comes later in the cycle than
+							// the coarser one's did: the cap on that delay in schedulePrefixNoLock is dead code
+							var p1, p2 *vC17ReprovStart
+							for i := range s.reprovStarts {
+								rs := &s.reprovStarts[i]
+								if !strings.HasPrefix(bits, rs.prefix) {
+									continue
+								}
+								if rs.t < x {
+									p1 = rs
+								} else if p2 == nil {
+									p2 = rs
+								}
+							}
+							if p1 != nil && p2 != nil && len(p2.prefix) > len(p1.prefix) {
+								sig += "/region-split-moves-slot"
+								during = fmt.Sprintf("; the key was last reprovided with region %q at +%v, which its own reprovide split; its next reprovide came with the finer region %q at +%v, whose slot lies %v later in the cycle", p1.prefix, p1.t.Round(time.Second), p2.prefix, p2.t.Round(time.Second), (p2.t - p1.t - vC17Interval).Round(time.Second))
+							}
+						}
 						if during == "" && s.stuckAt > 0 && s.stuckAt < hi {
 							sig += "/schedule-grown-from-one-region"
 							during = fmt.Sprintf("; the schedule held the single region %q when StartProviding added more at +%v; seen at +%v: cursor re-armed on %q at its own slot for a full interval with several regions scheduled (every other region taken for late)", s.onePrefix, s.oneRegion.Round(time.Second), s.stuckAt.Round(time.Second), s.onePrefix)
@@ -1475,6 +1497,12 @@ var (
 
 type vC17LogCore struct{}
 
+// vC17ReprovStart: a reprovide batch announced itself for this scheduled prefix.
+type vC17ReprovStart struct {
+	t      time.Duration
+	prefix string
+}
+
 // vC17Explore is one closestPeersToPrefix run as its debug lines tell it (grouped by goroutine: one exploration per
 // batch goroutine). earlyStop: the loop left by the no-fresh-peers break (the breaking lookup logs nothing, so the
 // last logged line still lists gaps and the request count is two ahead of its index); lastNoFresh: the last logged
@@ -1560,6 +1588,13 @@ func (k vC17LogCore) Write(e zapcore.Entry, fields []zapcore.Field) error {
 			pth = 'R'
 		}
 		vC17BatchPath.Store(vC17Goid(), pth)
+		if pth == 'R' {
+			if i, j := strings.Index(e.Message, `"`), strings.LastIndex(e.Message, `"`); i >= 0 && j > i {
+				s.mu.Lock()
+				s.reprovStarts = append(s.reprovStarts, vC17ReprovStart{t: s.now(), prefix: e.Message[i+1 : j]})
+				s.mu.Unlock()
+			}
+		}
 		return nil
 	}
 	if e.Level == zapcore.DebugLevel {
